@@ -174,6 +174,11 @@ def history_case(ctx, case):
     if state == 'timeout':
         from vlib.core import HarnessError
         raise HarnessError('C11 case did not settle')
+    if state == 'blocked':
+        ctx.fail('history', 'K-client-blocks-in-read', case,
+                 'the client waits for ever for bytes the server never '
+                 'announced')
+        return
     if state == 'idle':
         ctx.fail('history', 'K4-thread-never-terminates', case)
         return
